@@ -17,6 +17,7 @@ from vlib import run_driver, run_driver_parallel, CACHE, unhex
 PROC_MAGIC = 0x9fa0
 A = lambda s: s.encode().hex()    # noqa: E731
 MARKER = os.path.join(CACHE, "work", "foreign_marker")
+LINK1 = os.path.join(CACHE, "work", "link_to_pid1")         # a symlink with body "1": over /proc/self it leads to /proc/1
 
 # over-mountable entries: name -> (mount op, umount op, sub-paths whose lookup crosses the mount)
 MOUNTS = {
@@ -26,13 +27,21 @@ MOUNTS = {
     "environ<-other procfs file": (["mount_bind", A("/proc/1/environ"), A("/proc/self/environ")], ["umount", A("/proc/self/environ")], ["environ"]),
     "attr<-other procfs dir": (["mount_bind", A("/proc/1/attr"), A("/proc/self/attr")], ["umount", A("/proc/self/attr")], ["attr", "attr/current"]),
     "cwd<-foreign file (magic-link itself)": (["mount_bind_nofollow", A(MARKER), A("/proc/self/cwd")], ["umount_nofollow", A("/proc/self/cwd")], ["cwd"]),
+    # a symlink mounted over the /proc/self (/proc/thread-self) symlink: crossed by lookups from the procfs root THROUGH it
+    "self<-symlink to another pid": (["mount_bind_nofollow", A(LINK1), A("/proc/self")], ["umount_nofollow", A("/proc/self")],
+                                     ["root:self/status", "root:self/cwd", "root:self"]),
+    "thread-self<-symlink to another pid": (["mount_bind_nofollow", A(LINK1), A("/proc/thread-self")], ["umount_nofollow", A("/proc/thread-self")],
+                                            ["root:thread-self/stat", "root:thread-self"]),
 }
-QUICK_SET = ["status<-foreign file", "fd<-tmpfs", "exe<-foreign file (magic-link itself)", "environ<-other procfs file"]
+QUICK_SET = ["status<-foreign file", "fd<-tmpfs", "exe<-foreign file (magic-link itself)", "self<-symlink to another pid"]
 
 LOOKUPS = [("proc_open", "status", O["RDONLY"], False), ("proc_open", "fd", O["RDONLY"] | O["DIRECTORY"], False), ("proc_open", "fd/0", O["PATH"], False),
            ("proc_readlink", "exe", 0, False), ("proc_open", "exe", O["PATH"], True), ("proc_open", "environ", O["RDONLY"], False),
            ("proc_open", "attr/current", O["RDONLY"], False), ("proc_readlink", "cwd", 0, False), ("proc_open", "stat", O["RDONLY"], False),
-           ("proc_open", "status", O["PATH"], True)]
+           ("proc_open", "status", O["PATH"], True),
+           # from the procfs root, through the /proc/self and /proc/thread-self symlinks
+           ("proc_open", "root:self/status", O["RDONLY"], False), ("proc_readlink", "root:self/cwd", 0, False),
+           ("proc_open", "root:thread-self/stat", O["RDONLY"], False), ("proc_open", "root:self", O["PATH"] | O["DIRECTORY"], False)]
 
 # handle kinds: (label, job fields, mounts must be placed before construction?, private?)
 HANDLES = [("fsopen (private instance)", {}, False, True),
@@ -45,6 +54,7 @@ HANDLES = [("fsopen (private instance)", {}, False, True),
 def stable(content, path):
     """the part of a file's content that does not change between two reads"""
     c = unhex(content or "")
+    path = path.split(":")[-1].rsplit("/", 1)[-1]       # the entry's own name decides what is process-independent
     if path == "status" or path.endswith("/status"):
         # runs are spread over several driver processes: keep what is the same in all of them (name line, field names)
         return b"\n".join(l if l.startswith(b"Name:") else l.split(b":")[0] for l in c.split(b"\n"))
@@ -58,6 +68,8 @@ def run(ck):
     thorough = ck.tier == "thorough"
     os.makedirs(os.path.dirname(MARKER), exist_ok=True)
     open(MARKER, "w").write("FOREIGN-MARKER\n")
+    if not os.path.islink(LINK1):
+        os.symlink("1", LINK1)
     names = list(MOUNTS) if thorough else QUICK_SET
     subsets = [s for r in range(len(names) + 1) for s in itertools.combinations(names, r)]
     if thorough and len(subsets) > 64:
@@ -70,14 +82,15 @@ def run(ck):
             post = [MOUNTS[n][1] for n in reversed(sub)]
             crossing = {p for n in sub for p in MOUNTS[n][2]}
             for (k, p, fl, follow) in (LOOKUPS if thorough or not sub else rng.sample(LOOKUPS, 6)):
-                for base in (("self", "thread") if thorough or not sub else (rng.choice(["self", "self", "thread"]),)):
+                for base in (("root",) if p.startswith("root:") else ("self", "thread") if thorough or not sub else (rng.choice(["self", "self", "thread"]),)):
                     jid += 1
-                    op = {"k": k, "base": base, "path": H(p)}
+                    op = {"k": k, "base": base, "path": H(p[5:] if p.startswith("root:") else p)}
                     if k == "proc_open":
                         op["flags"] = fl
                         op["follow"] = follow
                     j = {"id": jid, "op": op, "read": True, "postumount": post, "trace": False,
-                         "meta": {"handle": hl, "mounts": list(sub), "path": p, "private": private, "crossing": p in crossing and base == "self"}}
+                         "meta": {"handle": hl, "mounts": list(sub), "path": p, "private": private,
+                                  "crossing": p in crossing and (base == "self" or p.startswith("root:"))}}
                     j["premount_early" if early else "premount"] = pre
                     j.update(hf)
                     jobs.append(j)
